@@ -706,6 +706,9 @@ pub fn config_probes(scratch: &std::path::Path, seed: u64) -> (Option<Violation>
     let depth = 3usize;
     // 1. a tree with content under a first configuration
     let cfg_a = json!({"tree_config": {"path": p, "temporary": false, "cache_capacity": *rng.pick(&[1024u64, 150000, 1 << 30]), "flush_every_ms": *rng.pick(&[None, Some(50u64), Some(12000)]), "mode": *rng.pick(&["HighThroughput", "LowSpace"]), "use_compression": false}}).to_string();
+    // one configuration in four names only the location: every other option takes the parser's default
+    let minimal = json!({"tree_config": {"path": p, "temporary": false}}).to_string();
+    let cfg_a = if rng.chance(1, 4) { c.inc("reach.minimal_config_created"); minimal.clone() } else { cfg_a };
     let v = fr_from_le(&rng.bytes(32));
     let root_a;
     {
@@ -727,6 +730,7 @@ pub fn config_probes(scratch: &std::path::Path, seed: u64) -> (Option<Violation>
     c.inc("oracle_evaluations");
     // 2. reopen under a different (valid) configuration: same content
     let cfg_b = json!({"tree_config": {"path": p, "temporary": false, "cache_capacity": *rng.pick(&[1024u64, 4096, 1 << 20]), "flush_every_ms": *rng.pick(&[None, Some(50u64)]), "mode": *rng.pick(&["HighThroughput", "LowSpace", "Unknown"])}}).to_string();
+    let cfg_b = if rng.chance(1, 4) { c.inc("reach.minimal_config_reopened"); minimal.clone() } else { cfg_b };
     {
         let r = match guarded(|| RLN::new(depth, Cursor::new(cfg_b.clone()))) {
             Ok(Ok(r)) => r,
